@@ -44,8 +44,9 @@ def judge(ctx, r):
 
 def correspondence(ctx):
     ctx.rule = ("dynamic tie for this property: a -race build of the tree under test runs G goroutines sharing 5 character recipes, 3 cold word lists "
-                "x 7 separator settings (constant, 4 package-level presets, 2 constructed functions with two required sets each) and all five "
-                "methods, on the real OS source; every result is validated (length, alphabet, required sets, atoms, separators, entropy equal to "
+                "x 8 separator settings (constant, 4 package-level presets, 2 constructed functions with two required sets each, one constructed "
+                "from a recipe with Length unset) and all five methods, on the real OS source, after cold-start processes in which the goroutines "
+                "make the first library calls of the process (recipes requiring the Ambiguous class, first constructions of a word list, presets); every result is validated (length, alphabet, required sets, atoms, separators, entropy equal to "
                 "the recipe's). evaluations = API calls made; distinct_nontrivial = distinct (shared object, method) pairs exercised, counted by the program. "
                 "The static tie is the footprint computation over coq/Gen/Effects.v inside Properties/C14.v.")
     # deterministic schedules: one generation parked inside its k-th read of the random source while another runs to completion
@@ -55,8 +56,18 @@ def correspondence(ctx):
         ctx.mismatches.append({"family": "race-build", "case": "go build -race", "impl": ctx.build.race_log[-800:], "model": None, "meta": {}})
         return
     g, it = (8, 1000) if ctx.tier == "quick" else (32, 20000)
+    # cold starts: fresh processes in which the goroutines make the first library calls of the process (whatever the
+    # package initialises lazily is then initialised concurrently); one first use per process, hence many short runs
+    ctx.stress = []
+    for k in range(6 if ctx.tier == "quick" else 40):
+        rc = run_stress(ctx, 8 if k % 2 else 16, 60, ctx.seed % 1000 + 17 * k, mode="cold")
+        ctx.stress.append(rc)
+        judge(ctx, rc)
+        ctx.count("cold_start_processes")
+        if ctx.violations:
+            return
     r = run_stress(ctx, g, it, ctx.seed % 1000)
-    ctx.stress = [r]
+    ctx.stress.append(r)
     judge(ctx, r)
     if not ctx.violations:
         # the same sharing with a goroutine-safe source that forces the rare paths (every other raw word is rejected)
